@@ -88,6 +88,8 @@ func scenario(sn Scen, eager bool, preempt int) *explore.Scenario {
 		vw := vfs.Reset(root)
 		vw.CoarseReads = true
 		c12ops.RenameFn = vfs.Rename
+		c12ops.MkdirFn = vfs.Mkdir
+		c12ops.RemoveFn = vfs.Remove
 		var results []c12ops.Result
 		var hist []porcupine.Operation
 		clock := int64(0)
@@ -156,7 +158,7 @@ func scenario(sn Scen, eager bool, preempt int) *explore.Scenario {
 			return in
 		}
 		in.Threads = []func(){func() {
-			c, _ := cdi.NewCache(cdi.WithSpecDirs(w.D0, w.D1), cdi.WithAutoRefresh(sn.Auto))
+			c, _ := cdi.NewCache(cdi.WithSpecDirs(w.Dirs()...), cdi.WithAutoRefresh(sn.Auto))
 			remaining := len(sn.Ops)
 			for ti, name := range sn.Ops {
 				ti, name := ti, name
@@ -504,6 +506,21 @@ func main() {
 						}
 						res := explore.Explore(sc, time.Unix(dl, 0))
 						_ = enc.Encode(workerOut{Scenario: sn, Eager: eager, Executions: res.Executions, Points: res.Points, Outcomes: res.Outcomes, Violations: res.Violations, Capped: res.Capped, Infra: res.Infra, Pruned: res.Pruned, States: res.States})
+						if raceBuild && len(sn.Ops) == 2 && sn.Ops[0] != sn.Ops[1] && sn.Kind == "pair" {
+							// the same pair with the threads started in the other order: an access one thread makes
+							// after releasing a lock races with the other thread's locked write only when it comes
+							// first; with the reversed order that schedule is a default one (no preemption needed)
+							rs := Scen{Kind: sn.Kind, Ops: []string{sn.Ops[1], sn.Ops[0]}, Auto: sn.Auto}
+							rsc := scenario(rs, eager, sc.Bounds.Preemptions)
+							rsc.AfterExec = func(e *sched.Exec) (string, string, any) {
+								for sig, rep := range parseRaceText(raceLogTail()) {
+									return "data-race:" + sig, "the Go race detector reports a data race between " + sig + " in this schedule of " + rs.String(), rep
+								}
+								return "", "", nil
+							}
+							res := explore.Explore(rsc, time.Unix(dl, 0))
+							_ = enc.Encode(workerOut{Scenario: rs, Eager: eager, Executions: res.Executions, Points: res.Points, Outcomes: res.Outcomes, Violations: res.Violations, Capped: res.Capped, Infra: res.Infra, Pruned: res.Pruned, States: res.States})
+						}
 					}
 				}
 			}
